@@ -268,7 +268,7 @@ func (c *Ctx) writerRun(name string, cases []*WCase, withStd bool) (int, error) 
 		}
 		byID[cs.ID] = cs
 		fg = append(fg, cs)
-		if withStd && hasStd(cs.Set) && cs.Arch == c.Levels[len(c.Levels)-1] {
+		if withStd && hasStd(cs.Set) && cs.Arch == c.Levels[len(c.Levels)-1] && cs.Bulk == 0 && cs.Soak == 0 {
 			s := *cs
 			s.Set.Impl = "std"
 			s.ID = "std:" + cs.ID
@@ -428,6 +428,8 @@ func checkC16(c *Ctx) (int, error) {
 		c.ev.nontrivial(histString(cs.Ops) + "|" + cs.Tag + fmt.Sprint(i/3%5))
 	}
 	c.ev.Extra["unencodable_header_cases"] = nBad
+	// Close at the output-piece boundaries, in bulk (see execBulk)
+	cases = append(cases, bulkCases(c, rng, "C16")...)
 	c.ev.Rule = fmt.Sprintf("every history of exactly %d calls over {Write(0|small|large), Flush, Close, Reset} printed by TLC from WriterModel (prefixes are validated event by event), each on %d settings of %d; non-trivial = contains a Close and at least one other call; distinct by (history, setting)", maxLen, perHist, nset)
 	c.ev.Exhaustive = true
 	for _, cs := range spread(cases) {
